@@ -902,8 +902,31 @@ theorem topoEq_refitLoop (cur : Nat → Aabb3 K) (margin : K) (fuel : Nat) :
     · cases h; exact TopoEq.refl q
     · exact (topoEq_refitRound cur margin first q num).trans (ih _ _ _ _ h)
 
+@[simp] theorem syncRootAabb_nodes (q : Q K) : (syncRootAabb q).nodes = q.nodes := by
+  unfold syncRootAabb; split <;> rfl
+@[simp] theorem syncRootAabb_proxies (q : Q K) : (syncRootAabb q).proxies = q.proxies := by
+  unfold syncRootAabb; split <;> rfl
+@[simp] theorem syncRootAabb_dirtyNodes (q : Q K) : (syncRootAabb q).dirtyNodes = q.dirtyNodes := by
+  unfold syncRootAabb; split <;> rfl
+@[simp] theorem syncRootAabb_freeList (q : Q K) : (syncRootAabb q).freeList = q.freeList := by
+  unfold syncRootAabb; split <;> rfl
+
+theorem topoEq_syncRootAabb (q : Q K) : TopoEq q (syncRootAabb q) :=
+  ⟨by simp, by simp, fun _ nd h => ⟨nd, by simpa using h, rfl, rfl, rfl, rfl⟩, by simp,
+    fun _ pr h => ⟨pr, by simpa using h, rfl, rfl⟩⟩
+
+/-- `refit` = the pinned loops followed by `syncRootAabb` -/
+theorem refit_eq (q : Q K) (cur : Nat → Aabb3 K) (margin : K) (r : Q K × Nat) (h : refit q cur margin = some r) :
+    ∃ r0 : Q K × Nat, refitLoop cur margin (q.nodes.size + 2) true q 0 = some r0 ∧ r = (syncRootAabb r0.1, r0.2) := by
+  unfold refit refitPinned at h
+  cases h0 : refitLoop cur margin (q.nodes.size + 2) true q 0 with
+  | none => rw [h0] at h; cases h
+  | some r0 => rw [h0] at h; cases h; exact ⟨r0, rfl, rfl⟩
+
 theorem topoEq_refit (q : Q K) (cur : Nat → Aabb3 K) (margin : K) (r : Q K × Nat) (h : refit q cur margin = some r) :
-    TopoEq q r.1 := topoEq_refitLoop cur margin _ _ _ _ _ h
+    TopoEq q r.1 := by
+  obtain ⟨r0, h0, rfl⟩ := refit_eq q cur margin r h
+  exact (topoEq_refitLoop cur margin _ _ _ _ _ h0).trans (topoEq_syncRootAabb _)
 
 theorem all_range_iff (n : Nat) (f : Nat → Bool) : (List.range n).all f = true ↔ ∀ i, i < n → f i = true := by
   simp [List.all_eq_true, List.mem_range]
